@@ -3,6 +3,7 @@ package checks
 import (
 	"fmt"
 	"os"
+	"runtime/debug"
 	"strings"
 	"sync"
 
@@ -51,6 +52,8 @@ type c04Work struct {
 	fail    *vc.Fail
 	changed bool
 	simp    *syntax.File // after one Simplify pass
+	orig    *syntax.File
+	done0   [2]bool
 	// printed texts per configuration: of the original tree, of the simplified tree
 	p0, p1   [2]string
 	ok0, ok1 [2]bool
@@ -66,6 +69,7 @@ func c04(c *vc.Ctx) {
 		"a round-trip or behaviour defect already present when printing the UNSIMPLIFIED tree is the printer's (C01/C02), not Simplify's, and is counted as skipped",
 	}
 	c.Reruns = 1
+	debug.SetGCPercent(400) // the cases allocate many short-lived dumps
 	size := vc.Pick(c, 100, 250)
 	complete := vc.RunBatch(c, size, func(emit func(c04Case)) { c04Gen(thorough, emit) }, func(ts []c04Case) []*vc.Fail {
 		return c04RunBatch(c, ts)
@@ -91,7 +95,7 @@ func c04RunBatch(c *vc.Ctx, ts []c04Case) []*vc.Fail {
 		if w != nil && w.fail == nil && w.needBash {
 			texts = append(texts, t.Src)
 			for k := range c04Cfgs {
-				if w.ok0[k] && w.ok1[k] {
+				if w.ok1[k] {
 					texts = append(texts, w.p1[k])
 				}
 			}
@@ -112,8 +116,10 @@ func c04RunBatch(c *vc.Ctx, ts []c04Case) []*vc.Fail {
 				continue
 			}
 			for k := range c04Cfgs {
-				if w.ok0[k] && w.ok1[k] && bres[w.p1[k]] != bres[w.t.Src] {
-					more = append(more, w.p0[k])
+				if w.ok1[k] && bres[w.p1[k]] != bres[w.t.Src] {
+					if w.printOrig(ws, k); w.ok0[k] {
+						more = append(more, w.p0[k])
+					}
 				}
 			}
 		}
@@ -175,37 +181,18 @@ func c04Go(c *vc.Ctx, ws *synt.Workspace, t c04Case) *c04Work {
 		return w
 	}
 	c.Count("changed_by_simplify", 1)
-	c.Distinct(synt.Dump(f, synt.DumpOpts{}))
+	c.Distinct(d1)
 	// clause (2)
-	rt := func(tree *syntax.File, cfg synt.Config) (string, bool, string) {
-		var out string
-		var perr error
-		if fl := guard("print", func() { out, perr = ws.Print(cfg, tree) }); fl != nil {
-			ws.Drop()
-			return "", false, "Print panics: " + fl.Msg
-		}
-		if perr != nil {
-			return out, false, "Print fails: " + perr.Error()
-		}
-		f2, err := ws.Parse(out, lang)
-		if err != nil {
-			return out, false, "does not reparse: " + err.Error()
-		}
-		o := synt.DumpOpts{Cosmetic: true, Minify: cfg.Minify}
-		if synt.Dump(f2, o) != synt.Dump(tree, o) {
-			return out, false, "reparses to a different tree"
-		}
-		return out, true, ""
-	}
+	w.orig = f0
 	for k, cfg := range c04Cfgs {
 		var why string
-		w.p0[k], w.ok0[k], _ = rt(f0, cfg)
-		if !w.ok0[k] {
-			c.Count("skipped_original_does_not_roundtrip", 1)
-			continue
-		}
-		w.p1[k], w.ok1[k], why = rt(f, cfg)
+		w.p1[k], w.ok1[k], why = c04RT(ws, lang, f, cfg)
 		if !w.ok1[k] {
+			// the printer's own business (C01) if the unsimplified tree fails too
+			if w.printOrig(ws, k); !w.ok0[k] {
+				c.Count("skipped_original_does_not_roundtrip", 1)
+				continue
+			}
 			w.fail = &vc.Fail{Key: w.key + " roundtrip " + cfg.String(), Msg: fmt.Sprintf("[%s] %s: simplified tree printed with %s gives %s which %s", t.Variant, shortSrc(c04Snippet(t)), cfg, shortSrc(c04Body(w.p1[k])), why)}
 			return w
 		}
@@ -251,12 +238,12 @@ func c04JudgeBash(c *vc.Ctx, w *c04Work, bres map[string]c04Res) *vc.Fail {
 		return nil
 	}
 	for k, cfg := range c04Cfgs {
-		if !w.ok0[k] || !w.ok1[k] {
+		if !w.ok1[k] {
 			continue
 		}
 		c.Count("bash_pairs_compared", 1)
 		if b1 := bres[w.p1[k]]; b1 != b0 {
-			if bp := bres[w.p0[k]]; bp != b0 {
+			if bp := bres[w.p0[k]]; !w.ok0[k] || bp != b0 {
 				c.Count("skipped_printing_alone_changes_bash_behaviour", 1)
 				continue
 			}
@@ -327,4 +314,37 @@ func c04Trim(s string) string {
 
 // c04Classify assigns the narrow classes of known defect families.
 func c04Classify(w *c04Work) {
+}
+
+// c04RT prints tree with cfg and reports whether the output reparses to the
+// same tree (C01's notion: dump without positions, documented cosmetic
+// rewrites normalised).
+func c04RT(ws *synt.Workspace, lang syntax.LangVariant, tree *syntax.File, cfg synt.Config) (string, bool, string) {
+	var out string
+	var perr error
+	if fl := guard("print", func() { out, perr = ws.Print(cfg, tree) }); fl != nil {
+		ws.Drop()
+		return "", false, "Print panics: " + fl.Msg
+	}
+	if perr != nil {
+		return out, false, "Print fails: " + perr.Error()
+	}
+	f2, err := ws.Parse(out, lang)
+	if err != nil {
+		return out, false, "does not reparse: " + err.Error()
+	}
+	o := synt.DumpOpts{Cosmetic: true, Minify: cfg.Minify}
+	if synt.Dump(f2, o) != synt.Dump(tree, o) {
+		return out, false, "reparses to a different tree"
+	}
+	return out, true, ""
+}
+
+// printOrig prints (and round-trips) the unsimplified tree on demand.
+func (w *c04Work) printOrig(ws *synt.Workspace, k int) {
+	if w.done0[k] {
+		return
+	}
+	w.done0[k] = true
+	w.p0[k], w.ok0[k], _ = c04RT(ws, synt.LangByName(w.t.Variant), w.orig, c04Cfgs[k])
 }
